@@ -352,7 +352,8 @@ def plan(tier, seed, scale=1.0):
     for sh in range(24):
         specs.append({"kind": "valid", "n": -(-nv // 24), "seed": derive_seed(seed, "valid", sh), "depth": (2, 3, 3)[sh % 3], "shrink_cap": b["shrink_cap"]})
     for sh in range(8):
-        specs.append({"kind": "invalid", "n": -(-ni // 8), "seed": derive_seed(seed, "invalid", sh), "shrink_cap": b["shrink_cap"]})
+        focus = ("value", "value", "kw", "top", None, "value", "kw", None)[sh]
+        specs.append({"kind": "invalid", "n": -(-ni // 8), "seed": derive_seed(seed, "invalid", sh), "focus": focus, "shrink_cap": b["shrink_cap"]})
     return specs
 
 
@@ -366,7 +367,7 @@ def run_shard(spec):
     _setup()
     col = Collector()
     invalid = spec["kind"] == "invalid"
-    strat = tg.case_strategy(invalid=invalid, depth=spec.get("depth", 3))
+    strat = tg.case_strategy(invalid=invalid, depth=spec.get("depth", 3), focus=spec.get("focus"))
     best_special = {}
 
     # Shrinking is capped (DESIGN 1.6): after the first unattributed failure at most `shrink_cap` further
